@@ -83,6 +83,8 @@ def f_kind(blk, pos, named):
         return named['a'] - named['b']
     if kind == 'FPack':
         return (tuple(pos), tuple(sorted(named.items())))
+    if kind == 'FGe3':
+        return pos[0] >= 3
     raise AssertionError(kind)
 
 
@@ -173,7 +175,11 @@ def eval_bound(case):
     nblocks = len(srcs) + len(fbsender) + len(g)
     if fbsender:
         return sum(bound(n) for n in g), nblocks
-    return max(len(g), sum(paths(n) for n in g)), nblocks
+    plain = max(len(g), sum(paths(n) for n in g))
+    if any(b.get('reset') for b in case['cblocks']):
+        # the self-resetting counter changes once more while the circuit settles: a second wave
+        return 2 * plain, nblocks
+    return plain, nblocks
 
 
 def depth_and_reconv(case):
@@ -218,7 +224,16 @@ def cases(draw):
     ncb = draw(st.integers(1, 8))
     diamond = draw(st.booleans())
     cblocks = []
-    avail = [s['name'] for s in sources]       # nodes usable as inputs of the next block
+    # template "self-resetting counter": a CBlock event changes the very source that feeds it
+    selfreset = draw(st.integers(0, 3)) == 0
+    if selfreset:
+        sources.append({'name': 'r0', 'kind': 'CounterR', 'init': draw(st.integers(0, 2))})
+        types['r0'] = 'num'
+        cblocks.append({'name': 'rf', 'kind': 'FGe3', 'pos': [['blk', 'r0', 'name']], 'named': {},
+                        'fb': None, 'reset': 'r0'})
+        types['rf'] = 'num'
+        types['_not_rf'] = 'num'
+    avail = [s['name'] for s in sources] + (['rf'] if selfreset else [])
 
     def ref(need_num, usable):
         cands = [n for n in usable if not need_num or types[n] == 'num']
@@ -284,7 +299,7 @@ def cases(draw):
         cblocks.append(blk)
         avail.append(name)
         # event feedback: a new source usable only by later blocks
-        if draw(st.integers(0, 5)) == 0 and j < ncb - 1:
+        if not selfreset and draw(st.integers(0, 5)) == 0 and j < ncb - 1:
             fbkind = draw(st.sampled_from(['Counter', 'Input']))
             fbname = f'f{j}'
             blk['fb'] = {'name': fbname, 'kind': fbkind, 'num': t == 'num'}
@@ -294,7 +309,7 @@ def cases(draw):
     # keep the evaluation bound (construction, not rejection): drop trailing blocks
     while True:
         bound, nblocks = eval_bound(case)
-        if bound <= 3 * nblocks or len(case['cblocks']) == 1:
+        if bound <= 3 * nblocks or len(case['cblocks']) == (2 if selfreset else 1):
             break
         case['cblocks'].pop()
     last = case['cblocks'][-1]
@@ -311,7 +326,9 @@ def cases(draw):
         burst = []
         for _ in range(draw(st.integers(1, 4))):
             s = draw(st.sampled_from(sources))
-            if s['kind'] == 'Counter':
+            if s['kind'] == 'CounterR':
+                burst.append([s['name'], 'inc', draw(st.integers(1, 3))])
+            elif s['kind'] == 'Counter':
                 op = draw(st.sampled_from(['inc', 'dec', 'put']))
                 burst.append([s['name'], op, draw(st.integers(0, 3))])
             else:
@@ -447,7 +464,7 @@ def build(case):
     for name in case['order']:
         what, d = bydef[name]
         if what == 'src':
-            if d['kind'] == 'Counter':
+            if d['kind'] in ('Counter', 'CounterR'):
                 blocks[name] = edzed.Counter(name, initdef=d['init'])
             else:
                 blocks[name] = edzed.Input(name, initdef=POOL[d['init']])
@@ -464,7 +481,11 @@ def build(case):
             kw['on_output'] = edzed.Event(
                 d['fb']['name'], 'inc' if d['fb']['kind'] == 'Counter' else 'put')
         kind = d['kind']
-        if kind in ('Not', 'And', 'Or', 'Xor'):
+        if d.get('reset'):
+            kw['on_output'] = edzed.Event(d['reset'], edzed.EventCond('reset', None))
+        if kind == 'FGe3':
+            blk = edzed.FuncBlock(name, func=lambda x: x >= 3, **kw)
+        elif kind in ('Not', 'And', 'Or', 'Xor'):
             blk = getattr(edzed, kind)(name, **kw)
         elif kind == 'Override':
             blk = edzed.Override(name, null_value=POOL[d['null']], **kw)
@@ -527,6 +548,7 @@ def check_snapshots(case, snaps, res, tagbase=''):
     """idle invariant on every snapshot; returns per-burst (source_changed, cblock_changed)"""
     fbnames = {b['fb']['name'] for b in case['cblocks'] if b.get('fb')}
     extsrc = {s['name'] for s in case['sources']}
+    volatile = {b['reset'] for b in case['cblocks'] if b.get('reset')}     # changes while settling
     cmp_prev = {}
     activity = []
 
@@ -553,7 +575,7 @@ def check_snapshots(case, snaps, res, tagbase=''):
                 lo, hi = THRESHOLDS[blk['low']], THRESHOLDS[blk['high']]
                 x = pos[0]
                 r0 = blk['pos'][0]
-                exact = r0[0] == 'const' or (r0[0] == 'blk' and r0[1] in extsrc)
+                exact = r0[0] == 'const' or (r0[0] == 'blk' and r0[1] in extsrc and r0[1] not in volatile)
                 if x >= hi:
                     allowed = {True}
                 elif x < lo:
@@ -598,8 +620,14 @@ def check_snapshots(case, snaps, res, tagbase=''):
             activity.append((
                 any(not (prev[n] == snap[n]) for n in extsrc),
                 any(not (prev[b['name']] == snap[b['name']]) for b in case['cblocks'])))
+    # the self-resetting counter is below 3 whenever the circuit is idle
+    for name in volatile:
+        for k, snap in enumerate(snaps):
+            if not (0 <= snap[name] < 3):
+                res.fail('C01.self_reset', f"snapshot {k}: counter {name} is {snap[name]!r} although its reset event "
+                         "is due at 3")
     # without feedback the sources are predictable
-    if not fbnames:
+    if not fbnames and not volatile:
         cur = {}
         for s in case['sources']:
             cur[s['name']] = s['init'] if s['kind'] == 'Counter' else POOL[s['init']]
@@ -658,7 +686,7 @@ def execute(case):
     active = execute_one(case, res)
     maxd, reconv = depth_and_reconv(case)
     res.nontrivial = active and (maxd >= 2 or reconv)
-    has_fb = any(b.get('fb') for b in case['cblocks'])
+    has_fb = any(b.get('fb') or b.get('reset') for b in case['cblocks'])
     res.classes = [f'depth {min(maxd, 5)}{"+" if maxd >= 5 else ""}']
     if reconv:
         res.classes.append('reconvergent')
